@@ -47,14 +47,21 @@ func factsC10() {
 		return true
 	})
 	addInt("c10ProtocolReads", itoa(n), "gateway.go: number of `<expr>.Protocol` selectors (listener protocol is never read)")
-	// which variant of syncTCPRouteGateway: does it compare the listener protocol?
-	chk := false
+	// which variant of syncTCPRouteGateway: the comparisons on the listener protocol, in source order.
+	// The repaired code has exactly: != "" && != TCPProtocolType && != TLSProtocolType (skip otherwise).
+	var cmps []string
 	for _, b := range c10Binaries(gw, c10Method(gw, "syncTCPRouteGateway")) {
 		if strings.Contains(b, "listener.Protocol") {
-			chk = true
+			cmps = append(cmps, b)
 		}
 	}
-	addBool("c10TcpProtocolChecked", chk, "gateway.go syncTCPRouteGateway compares `listener.Protocol` (TCPRoute only through TCP/TLS listeners)")
+	addStrList("c10TcpProtocolCmps", cmps, "gateway.go syncTCPRouteGateway: comparisons on `listener.Protocol`, in source order")
+	want := []string{`listener.Protocol != ""`, "listener.Protocol != gatewayv1.TCPProtocolType", "listener.Protocol != gatewayv1.TLSProtocolType"}
+	chk := len(cmps) == len(want)
+	for i := range want {
+		chk = chk && cmps[i] == want[i]
+	}
+	addBool("c10TcpProtocolChecked", chk, "gateway.go syncTCPRouteGateway skips a listener whose protocol is neither empty, TCP nor TLS (exactly these three `!=` tests)")
 	la := c10Binaries(gw, c10Method(gw, "checkListenerAllowed"))
 	addBool("c10NilAllowedRoutesRefused", has(la, "listener.AllowedRoutes == nil"),
 		"gateway.go checkListenerAllowed tests `listener.AllowedRoutes == nil` (refuse)")
